@@ -29,6 +29,7 @@ type fnPrint struct {
 	Pkg    string   `json:"pkg"`
 	Recv   string   `json:"recv,omitempty"`
 	Sig    string   `json:"sig"`
+	Flat   string   `json:"flat,omitempty"`   // signature with the receiver as first parameter (function ↔ method moves)
 	Params []string `json:"params,omitempty"` // upstream names of receiver and parameters, in order
 	Feats  []string `json:"feats"`
 }
@@ -73,6 +74,18 @@ func sigString(fn *ssa.Function) string {
 		v = "..."
 	}
 	return "(" + strings.Join(ps, ",") + v + ")(" + strings.Join(rs, ",") + ")"
+}
+
+func flatSig(fn *ssa.Function) string {
+	s := sigString(fn)
+	if r := fn.Signature.Recv(); r != nil {
+		rs := canonTypeString(r.Type())
+		if strings.HasPrefix(s, "()") {
+			return "(" + rs + ")" + s[2:]
+		}
+		return "(" + rs + "," + s[1:]
+	}
+	return s
 }
 
 func recvCanon(fn *ssa.Function) string {
@@ -191,7 +204,7 @@ func (p *Program) computeFingerprints() map[string]fnPrint {
 		for _, prm := range fn.Params {
 			pn = append(pn, prm.Name())
 		}
-		out[p.CanonFuncName(fn)] = fnPrint{Pkg: fn.Pkg.Pkg.Name(), Recv: recvCanon(fn), Sig: sigString(fn), Params: pn, Feats: p.features(fn, known)}
+		out[p.CanonFuncName(fn)] = fnPrint{Pkg: fn.Pkg.Pkg.Name(), Recv: recvCanon(fn), Sig: sigString(fn), Flat: flatSig(fn), Params: pn, Feats: p.features(fn, known)}
 	}
 	return out
 }
@@ -270,6 +283,24 @@ func resolveByFingerprint(p *Program) {
 					continue
 				}
 				cs = append(cs, cand{fn, jaccard(fp.Feats, p.features(fn, known))})
+			}
+			if len(cs) == 0 && fp.Flat != "" {
+				// a function that became a method of its first parameter's type, or the reverse: same flattened
+				// signature; the unchanged name is then decisive
+				short := name
+				if i := strings.LastIndex(name, "."); i >= 0 {
+					short = name[i+1:]
+				}
+				for _, fn := range unclaimed {
+					if fn.Pkg.Pkg.Name() != fp.Pkg || flatSig(fn) != fp.Flat || (recvCanon(fn) == fp.Recv) {
+						continue
+					}
+					sc := jaccard(fp.Feats, p.features(fn, known))
+					if fn.Name() == short {
+						sc = 1
+					}
+					cs = append(cs, cand{fn, sc})
+				}
 			}
 			sort.Slice(cs, func(i, j int) bool { return cs[i].score > cs[j].score })
 			if len(cs) == 0 || cs[0].score < 0.55 {
